@@ -173,9 +173,30 @@ def run(prog, tier):
         elif not ok and prev[0]:
             heap[key] = [False, show(node)[:70], txt, write, al.node['ln']]
 
+    stale = {}
+
+    def on_input_buffer(node, st, it):
+        # (a3) a buffer filled by fgets() holds a new line only when fgets() did not return NULL: reading it without that test reads
+        # the previous line again, or uninitialised bytes when nothing was ever read (an empty file)
+        b0 = strip_casts(node['c'][0])
+        if b0.get('k') != 'DeclRefExpr' or b0.get('cls') != 'local':
+            return
+        last = None
+        for e in st.events:
+            if e.kind == 'call' and e.name == 'fgets' and e.node.get('args') and show(strip_casts(e.node['args'][0])) == b0['name']:
+                last = e
+        if last is None or last.result is None:
+            return
+        ok = it.interval_of(last.result, st).excludes_zero()
+        key = (it.func['name'], node['ln'], node.get('col'))
+        prev = stale.get(key)
+        stale[key] = [(prev[0] and ok) if prev else ok, show(node)[:60], last.node['ln']]
+
     def on_sub(node, st, it, write=False):
         base = node['c'][0]
         ext = extent_of(base)
+        if not write and ext is not None:
+            on_input_buffer(node, st, it)
         if ext is None or ext < 0:
             if ext is None:
                 on_heap(node, st, it, write)
@@ -259,6 +280,11 @@ def run(prog, tier):
                    '%s %s, an element of the block allocated at line %d, but the element is not established to lie inside it (%s)' % (
                        'writes' if write else 'reads', txt, aln, detail), why='0 <= index and (index + 1) * sizeof(element) <= allocated size on every path')
     chk.floor('subscripts on blocks allocated on the same path', len(heap), 1)
+    for (fn, ln, col), (ok, txt, fln) in sorted(stale.items()):
+        f = summ.funcs[fn]
+        chk.decide(ok, 'input-buffer-fresh', f['unit'], fn, '%s after fgets@%d' % (txt, fln), '%s:%d' % (f['rel'], ln),
+                   'reads %s although the fgets() at line %d may have returned NULL (end of file, read error): the buffer then still holds the previous line - '
+                   'or uninitialised bytes if nothing was read yet, e.g. for an empty file' % (txt, fln), why='fgets() result tested for NULL first')
 
     # ---- (c) resources -------------------------------------------------------------------------
     rm = ResourceModel(summ)
